@@ -3,8 +3,11 @@ from .types import Int, Real, Bool, Str, NoneT, DT, TD, Date, Opt, Ref, List, Di
 from .engine import contract, REG, Contract  # noqa
 
 
-def ghost(name, params, src):
+def ghost(name, params, src, opaque=None):
+    """opaque=<type>: uninterpreted outside contracts that `reveal` it (keeps queries small)."""
     REG.ghost[name] = (list(params), src)
+    if opaque is not None:
+        REG.opaque[name] = opaque
 
 
 from . import types as _T
